@@ -80,6 +80,38 @@ type MapInv struct {
 	Expr     *CExpr
 	Text     string
 	Src      string
+	// Only: when non-empty, the invariant is assumed only inside the named functions
+	// (display names without package, e.g. "runTestCasesForServer")
+	Only []string
+}
+
+// appliesTo reports whether the invariant is assumed inside function fn (display name).
+func (mi *MapInv) appliesTo(fn string) bool {
+	if len(mi.Only) == 0 {
+		return true
+	}
+	if i := strings.Index(fn, "."); i >= 0 {
+		fn = fn[i+1:]
+	}
+	for _, o := range mi.Only {
+		if o == fn || strings.HasPrefix(fn, o+"$") {
+			return true
+		}
+	}
+	return false
+}
+
+// splitOnly splits "T in f, g" into T and [f g].
+func splitOnly(tt string) (string, []string) {
+	t, fs, ok := strings.Cut(tt, " in ")
+	if !ok {
+		return strings.TrimSpace(tt), nil
+	}
+	var out []string
+	for _, f := range strings.Split(fs, ",") {
+		out = append(out, strings.TrimSpace(f))
+	}
+	return strings.TrimSpace(t), out
 }
 
 // Guard: fields of a struct type that may only be accessed while its mutex field is held.
@@ -499,7 +531,8 @@ func (r *Registry) loadContractFile(path string, pkgPath string) error {
 			if err != nil {
 				return fail("%v", err)
 			}
-			r.ElemInvs = append(r.ElemInvs, &MapInv{TypeText: strings.TrimSpace(tt), Pkg: pkgPath, Expr: e, Text: strings.TrimSpace(text), Src: s.src})
+			tname, only := splitOnly(tt)
+			r.ElemInvs = append(r.ElemInvs, &MapInv{TypeText: tname, Pkg: pkgPath, Expr: e, Text: strings.TrimSpace(text), Src: s.src, Only: only})
 			cur = nil
 		case "mapvalues":
 			tt, text, ok := strings.Cut(s.rest, ":")
@@ -510,7 +543,8 @@ func (r *Registry) loadContractFile(path string, pkgPath string) error {
 			if err != nil {
 				return fail("%v", err)
 			}
-			r.MapInvs = append(r.MapInvs, &MapInv{TypeText: strings.TrimSpace(tt), Pkg: pkgPath, Expr: e, Text: strings.TrimSpace(text), Src: s.src})
+			tname, only := splitOnly(tt)
+			r.MapInvs = append(r.MapInvs, &MapInv{TypeText: tname, Pkg: pkgPath, Expr: e, Text: strings.TrimSpace(text), Src: s.src, Only: only})
 			cur = nil
 		case "ghost":
 			m := regexp.MustCompile(`^(\w+)\s*:\s*(.+?)\s*->\s*(.+)$`).FindStringSubmatch(s.rest)
